@@ -17,7 +17,7 @@ SHARD = 80
 RULE = ("seeded histories of 1-7 operations over a pool of polylines with 0-7 vertices (dyadic grid coordinates, "
         "power-of-two scales), every listed method, index arguments in range incl. insertion at 0..num_v with "
         "repeats and negative / > num_v roll amounts, plus the operations undefined for the polyline's kind; "
-        "exhaustive single insertions for n <= 3; non-trivial = the history's last call returned a value; distinct by hash")
+        "int64 vertex arrays with half-integer inserted points; call sequences on one object compared with fresh computations; exhaustive single insertions for n <= 3; non-trivial = the history's last call returned a value; distinct by hash")
 TRUSTED = ["Coq 8.16.1 kernel, vm_compute for the correspondence evaluation",
            "axioms (Print Assumptions): none beyond the Coq stdlib Reals axioms",
            "coq/corr/K_C09.v agreement relation (exact comparison of coordinates, indices, closedness, exception class)",
@@ -35,7 +35,10 @@ ASSUMPTIONS = ["models and theorems are about the value (vertex list, closedness
                "with_insertions index vectors of two or more entries containing an index below -num_v are outside the "
                "property's domain and not modelled (NumPy wraps such an index twice or raises ValueError); they are "
                "generated and recorded but not judged",
-               "with_insertions is modelled WITH fixes/C09-insertion-index-maps.diff applied"]
+               "with_insertions is modelled as repaired by /repo commit 9e3d823 (fixes/C09-insertion-index-maps.diff)",
+               "vertex arrays of integer dtype are in the domain ('all vertex arrays'): the model holds the given points as "
+               "reals, i.e. the behaviour with commit 9b9f8e2 (fixes/C09-integer-vertices.diff) (constructor stores a float64 copy); they are "
+               "generated with non-integer inserted points (values are judged, the dtype itself is not)"]
 
 
 # ---------------------------------------------------------------------------------------------------------
@@ -417,7 +420,8 @@ def _gen_op(rng, pool, scale, malformed):
             idx[rng.randrange(kk)] = -n                                                # the lowest valid position
         elif rng.random() < 0.1:
             idx = [i - n if (i > 0 and rng.random() < 0.5) else i for i in idx]    # Python's negative positions
-        return {"op": k, "a": a, "pts": [_pt(rng, scale) for _ in range(kk)], "idx": idx}
+        # on integer (dtype int64) vertex arrays the inserted points are half-integers: the list model keeps them exactly
+        return {"op": k, "a": a, "pts": [_pt(rng, 1.0 if scale is None else scale) for _ in range(kk)], "idx": idx}
     if k == "index_of":
         if n and rng.random() < 0.7:
             p = list(v[rng.randrange(n)])
@@ -507,6 +511,13 @@ def gen_cases(rng, n, tier):
         ops += [{"op": "insert", "a": j, "pts": [[10.0 + t, 0.5, 0.25] for t in range(len(idx))], "idx": idx}
                 for j, (v, idx) in enumerate(chunk)]
         cases.append({"kind": "exhaustive_insert", "ops": ops})
+    # integer (int64) vertex array + non-integer inserted point, then queries and edits on the result
+    cases.append({"kind": "int64_vertices_fractional_insert", "ops": [
+        {"op": "new", "v": [[0.0, 0.0, 0.0], [2.0, 0.0, 0.0], [2.0, 2.0, 0.0]], "closed": False, "int": True},
+        {"op": "insert", "a": 0, "pts": [[0.5, 0.5, 0.5]], "idx": [1]},
+        {"op": "bbox", "a": 1}, {"op": "flipped", "a": 1}, {"op": "index_of", "a": 1, "p": [0.5, 0.5, 0.5]},
+        {"op": "new", "v": [[1.0, 1.0, 1.0]], "closed": False},
+        {"op": "join", "parts": [0, 3], "closed": True}, {"op": "insert", "a": 4, "pts": [[0.25, 0.0, -0.5]], "idx": [0]}]})
     # insertion indices at and beyond the edge of the valid range -n..n (beyond: IndexError, or not modelled)
     v3 = [[1.0, 0.0, 0.0], [2.0, 0.0, -1.0], [3.0, 0.0, -2.0]]
     ops = [{"op": "new", "v": v3, "closed": False}]
@@ -556,7 +567,7 @@ def _value_checks(pl):
         bad.append("v is writeable")
     if pl.e.flags.writeable:
         bad.append("e is writeable")
-    if pl.v.dtype not in (np.float64, np.int64) or pl.v.ndim != 2 or pl.v.shape[1] != 3:
+    if pl.v.dtype not in (np.float64, np.int64) or pl.v.ndim != 2 or pl.v.shape[1] != 3:   # values are judged, not the dtype
         bad.append("v has dtype/shape %s %s" % (pl.v.dtype, pl.v.shape))
     if pl.e.dtype != np.int64 or pl.e.ndim != 2 or pl.e.shape[1] != 2:
         bad.append("e has dtype/shape %s %s" % (pl.e.dtype, pl.e.shape))
@@ -651,6 +662,8 @@ def run_impl(c):
                 pl = Polyline.join(*recv, is_closed=op["closed"])
                 rec["res"] = {"poly": _obs_poly(pl)}
                 news = [pl]
+                if any(np.shares_memory(pl.v, x.v) for x in recv):
+                    rec["complaints"].append("join: the result shares memory with one of the pieces")
             else:
                 p = recv[0]
                 if k == "flipped":
@@ -670,6 +683,9 @@ def run_impl(c):
                     rs = p.sectioned(np.array(op["bps"], dtype=np.int64), copy_vs=op["copy"])
                     rec["res"] = {"polys": [_obs_poly(x) for x in rs]}
                     news = list(rs)
+                    for x in rs:
+                        if np.shares_memory(x.v, p.v):
+                            rec["complaints"].append("sectioned(copy_vs=%r): a section shares memory with the receiver" % op["copy"])
                 elif k == "insert":
                     pts = np.array(op["pts"], dtype=np.float64).reshape(-1, 3)
                     idx = np.array(op["idx"], dtype=np.int64)
